@@ -245,6 +245,10 @@ func (n *Net) RoundTrip(req *http.Request) (*http.Response, error) {
 			respBody[i] ^= 0x55
 		}
 	case TypeConfuse:
+		if f.Code != 0 {
+			res.StatusCode = f.Code
+			res.Status = fmt.Sprintf("%d %s", f.Code, http.StatusText(f.Code))
+		}
 		respBody = []byte(confused[f.N%len(confused)])
 		if res.Header.Get("Content-Type") == "" {
 			res.Header.Set("Content-Type", "application/json")
@@ -262,6 +266,7 @@ var confused = []string{
 	`[]`, `null`, `"x"`, `42`, `{}`, `[[],[]]`, `{"keys":"x"}`, `{"keys":[1,"a",null]}`, `{"active":"yes","exp":"tomorrow","sub":{"a":1}}`,
 	`{"access_token":{"a":1},"expires_in":"soon","token_type":7}`, `{"keys":[{"kty":"RSA"}]}`, `{"keys":[{"kty":"EC","crv":"P-256","x":"AA","y":"AA"}]}`,
 	`{"sub":["a","b"],"exp":1e400}`, `true`, `{"issuer":5,"jwks_uri":[],"introspection_endpoint":{}}`,
+	`{"error_description":"no error member"}`, `{"error":42,"error_description":{"a":1}}`, `{"error":"invalid_client"}`,
 }
 
 // NumConfused is the number of type-confusion variants.
